@@ -187,6 +187,9 @@ K_NOSLIP = "option noslip_iterations is ignored (accepted by put_model, C runs t
 K_PASSIVE = "passive(): spring OR damper disabled zeroes every passive force (the C engine only skips them when both are disabled)"
 K_XTREE = ("implicitfast: velocity derivatives of tendon dampers/actuators that couple dofs which are not ancestor-related are dropped "
            "by the C engine's sparse qDeriv but kept by MJX")
+K_FREEGYRO = ("implicitfast: the C engine adds the gyroscopic (bias) velocity derivative for standalone free bodies "
+              "(mjd_freeMhat local solve); MJX's implicit() has no such term")
+K_ACTVEL = "actuation disabled: the C engine zeroes actuator_velocity, MJX still computes moment @ qvel"
 K_NOTOPT = "qacc is not the minimiser of the C engine's constraint problem although MJX's own solver reports a stationary point"
 
 
@@ -333,12 +336,19 @@ def compare_state(J, item, mt, C, X, i, st, xtype_static, part, stats):
             for row in C["ten_J"]:
                 nz = np.nonzero(row)[0]
                 cross = cross or any(not pat[a_, b_] for a_ in nz for b_ in nz)
+        gyro = False
+        if int(mt.opt.integrator) == 3:
+            for j in range(mt.njnt):
+                b_ = int(mt.jnt_bodyid[j])
+                if int(mt.jnt_type[j]) == 0 and int(mt.body_jntnum[b_]) == 1 and mt.body_subtreemass[b_] == mt.body_mass[b_]:
+                    a_ = int(mt.jnt_dofadr[j])
+                    gyro = gyro or bool(np.any(np.asarray(st["qvel"])[a_ + 3:a_ + 6] != 0))
         for f in ("next_qpos", "next_qvel", "next_act", "next_time"):
             e = chk(f, X[f][i], C[f], rt, at)
             if e > 1:
                 key = None
                 if f in ("next_qpos", "next_qvel"):
-                    key = K_FORCERANGE if sat else (K_XTREE if cross else None)
+                    key = K_FORCERANGE if sat else (K_XTREE if cross else (K_FREEGYRO if gyro else None))
                 put("next", f, e, key)
     return div, info
 
@@ -431,6 +441,10 @@ def check_model(J, lib, part, item, cap):
             for fld, e, key in div[first]:
                 if key is None and first == "act" and np.any(np.array(mt.actuator_actearly)):
                     key = K_ACTEARLY
+                if key is None and fld == "actuator_velocity" and int(mt.opt.disableflags) & (1 << 12):
+                    key = K_ACTVEL
+                if key is None and fam.startswith("gate["):
+                    key = "feature accepted by put_model but not reproduced: %s" % fam
                 if key is None and first in ("solve", "next") and int(mt.opt.noslip_iterations) > 0:
                     key = K_NOSLIP
                 part.violation(key or "%s differs @ %s" % (fld, fam),
